@@ -556,32 +556,67 @@ func stripOAIGen(opts *FlattenOpts) (bool, error) {
 	}
 	sort.Strings(sortedKeys)
 
-	for _, k := range sortedKeys {
-		r := opts.flattenContext.newRefs[k]
-		debugLog("newRefs[%s]: isOAIGen: %t, resolved: %t, name: %s, path:%s, #parents: %d, parents: %v,  ref: %s",
-			k, r.isOAIGen, r.resolved, r.newName, r.path, len(r.parents), r.parents, r.schema.Ref.String())
+	// an entry with a referrer located inside another OAIGen definition still to be merged back must wait for that one:
+	// otherwise its other referrers would be re-pointed into a definition which is about to be removed
+	inOrder := false // set when the remaining entries wait for each other: they are processed in order
+	for pending := sortedKeys; len(pending) > 0; {
+		postponed := make([]string, 0, len(pending))
 
-		if !r.isOAIGen || len(r.parents) == 0 {
-			continue
+		for _, k := range pending {
+			r := opts.flattenContext.newRefs[k]
+			debugLog("newRefs[%s]: isOAIGen: %t, resolved: %t, name: %s, path:%s, #parents: %d, parents: %v,  ref: %s",
+				k, r.isOAIGen, r.resolved, r.newName, r.path, len(r.parents), r.parents, r.schema.Ref.String())
+
+			if !r.isOAIGen || len(r.parents) == 0 {
+				continue
+			}
+
+			if refersToItself(r) {
+				// a recursive definition cannot be merged back into its referrers: keep it under its OAIGen name
+				continue
+			}
+
+			if !inOrder && hasParentInPendingOAIGen(opts, k, r, pending) {
+				postponed = append(postponed, k)
+
+				continue
+			}
+
+			hasReplacedWithComplex, err := stripOAIGenForRef(opts, k, r)
+			if err != nil {
+				return replacedWithComplex, err
+			}
+
+			replacedWithComplex = replacedWithComplex || hasReplacedWithComplex
 		}
 
-		if refersToItself(r) {
-			// a recursive definition cannot be merged back into its referrers: keep it under its OAIGen name
-			continue
-		}
-
-		hasReplacedWithComplex, err := stripOAIGenForRef(opts, k, r)
-		if err != nil {
-			return replacedWithComplex, err
-		}
-
-		replacedWithComplex = replacedWithComplex || hasReplacedWithComplex
+		inOrder = len(postponed) == len(pending)
+		pending = postponed
 	}
 
 	debugLog("replacedWithComplex: %t", replacedWithComplex)
 	opts.Spec.reload() // re-analyze
 
 	return replacedWithComplex, nil
+}
+
+// hasParentInPendingOAIGen tells whether one of the referrers of r lies within another OAIGen definition
+// which is going to be merged back into its own referrers (then removed).
+func hasParentInPendingOAIGen(opts *FlattenOpts, k string, r *newRef, pending []string) bool {
+	for _, kk := range pending {
+		other := opts.flattenContext.newRefs[kk]
+		if kk == k || !other.isOAIGen || other.resolved || len(other.parents) == 0 || refersToItself(other) {
+			continue
+		}
+
+		for _, parent := range r.parents {
+			if strings.HasPrefix(parent, other.path+"/") {
+				return true
+			}
+		}
+	}
+
+	return false
 }
 
 // refersToItself tells whether one of the referrers of a definition lies within that very definition
